@@ -175,7 +175,9 @@ class ConveyorBelt(Edge):
         return_val = self.belt.put(event, item_to_put)
         self._conveyor_stats_collector()
         if len(self.belt.items)==1 and self.state=="IDLE_STATE":
-            self.item_arrival_event.succeed()
+            # behaviour() may not have consumed an earlier arrival signal yet
+            if not self.item_arrival_event.triggered:
+                self.item_arrival_event.succeed()
             print(f"T={self.env.now:.2f}: {self.id }:put: item arrival event succeeded")
         else: 
             event= self.env.event()
